@@ -1,0 +1,6 @@
+//go:build !verif
+
+package yqlib
+
+// verifPoint is a no-op unless built with the `verif` tag.
+func verifPoint(_ string) error { return nil }
